@@ -123,6 +123,17 @@ def check_elements(part, zs):
             part.trace()
             if not (abs(cv[0] - row[2]) <= 1e-6) or not (abs(vd[2] - row[3]) <= 1e-6) or nm[0].lower() != name or sy[2] != sym or sy[1] != "H":
                 part.fail("vectorised:%d" % z, "cov_radii/vdw_radii/element_names/element_symbols disagree with Element for Z=%d" % z, {"kind": "vector", "z": z})
+            # degenerate sizes: ONE atom (an (1,) array), none at all, and two - one entry per atom, each what the single lookup gives
+            for nm_, sub in (("one atom", np.array([z])), ("no atoms", np.array([], dtype=int)), ("two atoms", np.array([z, z]))):
+                outs = [E.cov_radii(sub), E.vdw_radii(sub), E.element_names(sub), E.element_symbols(sub)]
+                part.trace()
+                okv = all(len(o) == len(sub) and np.ndim(o) == 1 for o in outs if not isinstance(o, (list, tuple))) and all(len(o) == len(sub) for o in outs)
+                if okv and len(sub):
+                    okv = abs(float(outs[0][0]) - row[2]) <= 1e-6 and abs(float(outs[1][-1]) - row[3]) <= 1e-6 and str(outs[2][0]).lower() == name and str(outs[3][-1]) == sym
+                if not okv:
+                    part.fail("vectorised-size:%s" % nm_, "cov_radii / vdw_radii / element_names / element_symbols of an array holding %s (Z=%d) return %r"
+                              % (nm_, z, [o.tolist() if hasattr(o, "tolist") else o for o in outs]), {"kind": "vector", "z": z})
+                    break
         except Exception as ex:
             part.fail("vectorised-raise:%d" % z, "vectorised helpers raised %r for Z=%d" % (ex, z), {"kind": "vector", "z": z})
         part.state(z)
